@@ -12,6 +12,8 @@ package goja
 //@ typeinv *typedArrayObject specTAWF
 //@ typeinv *dataViewObject specDVWF
 //@ stable typedArrayObject.offset typedArrayObject.length typedArrayObject.elemSize typedArrayObject.viewedArrayBuf typedArrayObject.typedArray
+// The constructors below fill in offset/length of the object they have just created.
+//@ constructor-of typedArrayObject (*Runtime)._newTypedArrayFromArrayBuffer (*Runtime)._newTypedArrayFromTypedArray (*Runtime).newTypedArrayWithData
 //@ stable dataViewObject.byteOffset dataViewObject.byteLen dataViewObject.viewedArrayBuf
 //@ stable typedArraySortCtx.ta typedArraySortCtx.compare
 // Script cannot reach the sort adapter's bookkeeping fields.
@@ -25,6 +27,7 @@ package goja
 //@   trusted
 //@   sweep-callers
 //@   requires specTAAccessOK(self, idx) [in-buffer-attached]
+//@   ensures specPrimitiveNumeric(result) [primitive]
 //@   assigns nothing
 
 //@ iface typedArray.getRaw
@@ -153,3 +156,38 @@ package goja
 //@   props C17
 //@   assigns nothing
 //@ func floatToIntClip pure
+
+//@ func specIsInt pure
+
+// The array a (possibly user-defined) constructor hands back is validated: attached and long enough.
+//@ func (*Runtime).typedArrayCreate
+//@   props C17
+//@   ensures result != nil && specTAWF(result) && !result.viewedArrayBuf.detached [attached]
+//@   ensures len(args) == 1 && specIsInt(args[0]) ==> result.length >= specIntOf(args[0]) [long-enough]
+
+//@ func (*Runtime).typedArraySpeciesCreate
+//@   props C17
+//@   ensures result != nil && specTAWF(result) && !result.viewedArrayBuf.detached [attached]
+//@   ensures len(args) == 1 && specIsInt(args[0]) ==> result.length >= specIntOf(args[0]) [long-enough]
+
+// Assumed (the element-type constructor is called through a function value): a freshly allocated
+// typed array starts at offset 0, has the requested length and an attached buffer of that size.
+//@ func (*Runtime).allocateTypedArray
+//@   props C17
+//@   trusted
+//@   ensures result != nil && specTAWF(result) && !result.viewedArrayBuf.detached && result.offset == 0 && result.length == length [fresh]
+
+// The builder only touches its own buffers.
+//@ func (*StringBuilder).WriteRune
+//@   props C17
+//@   trusted
+//@   assigns fields(b)
+//@ func (*StringBuilder).WriteString
+//@   props C17
+//@   trusted
+//@   assigns fields(b)
+
+//@ func (*Runtime).typedArrayProto_reverse
+//@   props C17
+//@   loop 1 vars lower int, middle int, l int, ta *typedArrayObject
+//@   loop 1 invariant ta != nil && specTAWF(ta) && !ta.viewedArrayBuf.detached && l == ta.length && 0 <= lower && lower <= middle && 2*middle <= l [bounds]
